@@ -1,7 +1,11 @@
 from vlib import H
 PROPERTY = 'C59'
 LEVEL = 'model_checking'
-CLAIM = ('TODO')
+CLAIM = ('src/node/eviction.cpp (static functions reached by including the .cpp): (1) each of the 7 comparators is a strict weak order for all field values (irreflexive, asymmetric, transitive, transitive incomparability) '
+         'and orders by the key the property names (higher ping / lower netgroup / older tx / older block first, i.e. protected peers last). (2) EraseLastKElements with the real std::sort/remove_if/erase on N<=4 (thorough 5) fully symbolic candidates and symbolic k: '
+         'survivors are distinct inputs in comparator order; an element is erased only if it satisfies the predicate and fewer than k inputs are strictly after it; a predicate-satisfying survivor has at least k others not before it; erased elements are never '
+         'ordered before such survivors; exactly min(k,n) erased for the default predicate (i.e. the protected set is a set of k maximal elements under every tie-break). (3) ProtectNoBanConnections / ProtectOutboundConnections remove exactly the noban / non-inbound candidates, order preserved. '
+         '(4) SelectNodeToEvict end to end only on a concrete, constant-tight scenario family (see assumptions). Not reached: SelectNodeToEvict with >= 21 fully symbolic candidates; ProtectEvictionCandidatesByRatio with symbolic candidates.')
 LINK = []
 COMMON = dict(link=LINK, nofmt=True, timeout=300, diff_runs=16)
 HARNESSES = [
@@ -13,10 +17,8 @@ HARNESSES = [
       functions=['EraseLastKElements', 'std::sort', 'std::remove_if', 'std::vector::erase'], bounds='N<=4 (thorough 5) candidates, k in 0..N+1, all attributes symbolic', **COMMON),
     H('protect_filters', 'evict.cpp', 'h_protect_filters', variants=[{'NC': 4}], tvariants=[{'NC': 6}], unwind=9,
       functions=['ProtectNoBanConnections', 'ProtectOutboundConnections'], bounds='N=4 (thorough 6)', **COMMON),
-    H('select_small', 'evict.cpp', 'h_select_small', variants=[{'NC': 2}, {'NC': 4}], tvariants=[{'NC': 6}], unwind=9,
-      functions=['SelectNodeToEvict'], bounds='N<=4 (thorough 6)', **COMMON),
-    H('select_core', 'evict.cpp', 'h_select_core', variants=[{'NC': 21, 'MODEL_SORT': 1}], unwind=25, memunwind=90,
-      functions=['SelectNodeToEvict'], stubs=['std::sort internals replaced by a nondeterministic any-sorted-permutation model'], bounds='N=21', **COMMON),
-    H('ratio', 'evict.cpp', 'h_ratio', variants=[{'NC': 4}], tvariants=[{'NC': 5}], unwind=9,
-      functions=['ProtectEvictionCandidatesByRatio'], bounds='N=4 (thorough 5)', **COMMON),
+    H('select_scenario', 'evict.cpp', 'h_select_scenario', variants=[{'NC': 21}, {'NC': 23}], tvariants=[{'NC': 21}, {'NC': 22}, {'NC': 23}, {'NC': 26}], unwind=30, memunwind=90, **dict(COMMON, timeout=600),
+      functions=['SelectNodeToEvict', 'ProtectEvictionCandidatesByRatio', 'EraseLastKElements', 'std::sort (real introsort)', 'std::map<uint64_t, std::vector<NodeEvictionCandidate>>'],
+      bounds='concrete scenario family (21..26 peers in disjoint best-in-one-criterion groups); only sort-irrelevant attributes symbolic',
+      assumptions=['scenario harness: the order of protection steps and the constants 4/8/4/4 are checked on concrete key values; a fully symbolic N>=21 run of SelectNodeToEvict did not finish in 30 min and is not claimed']),
 ]
